@@ -79,6 +79,12 @@ def run(db, res, tier):
       # solver_niter only ever +1
       if key == "Data.solver_niter":
         okn = a.kind == "atomic_add" and isinstance(a.value, T) and a.value.op == "c" and a.value.args[0] == 1
+        if not okn and a.kind == "w" and isinstance(a.value, T) and a.value.op == "bin" and a.value.args[0] == "+":
+          # the same update written out: niter[w] = niter[w] + 1 (one thread per world)
+          x, y = a.value.args[1], a.value.args[2]
+          if isinstance(y, T) and y.op == "ld":
+            x, y = y, x
+          okn = isinstance(x, T) and x.op == "ld" and array_key(lc, x.args[0]) == key and tuple(x.args[1:]) == tuple(a.idx) and isinstance(y, T) and y.op == "c" and y.args[0] == 1
         res.ob(okn, f"{lc.name}|niter-increment", Finding("R-GATE.6", f"{lc.name}|solver_niter|increment", f"solver_niter is updated by `{a.kind} {show(a.value)}` instead of += 1", a.loc))
   res.floor("gated result writes in the iteration", nw, 12)
 
@@ -98,36 +104,81 @@ def run(db, res, tier):
     def limit_cmp(t):
       return t.op == "cmp" and t.args[0] == "==" and any(s.op == "ld" and array_key(lc, s.args[0]) == "Data.solver_niter" for s in subterms(t.args[1])) and isinstance(t.args[2], T) and t.args[2].op == "p" and (lc.scalar_binding_text(t.args[2].args[0]) or "").endswith("opt.iterations")
 
-    # done := True dominated by (converged or niter == limit) and nothing stricter
-    okd = False
-    conv = None
-    for a in wd:
-      if not (isinstance(a.value, T) and a.value.op == "c" and a.value.args[0] is True):
-        continue
-      lits = list(pc_literals(a.pc))
-      ors = [t for t, pol in lits if pol and t.op == "or" and any(limit_cmp(x) for x in t.args)]
-      others = [(t, pol) for t, pol in lits if t not in ors and not (t.op == "ld" and array_key(lc, t.args[0]) == DONE_KEY)]
-      if ors and not others:
-        okd = True
-        conv = [x for x in ors[0].args if not limit_cmp(x)]
-    res.ob(okd, f"{name}|done-at-limit", Finding("R-GATE.8", f"{name}|done|limit", "ctx.done is not set to True on every path where solver_niter == opt.iterations can hold (expected `if converged or niter == iterations: done = True`)", lc.fi.loc()))
-    # ITERATIONS bit
-    oko = bool(wo)
-    for a in wo:
-      lits = list(pc_literals(a.pc))
-      has_limit = any(pol and limit_cmp(t) for t, pol in lits)
-      def negated(c):
-        if any((t is c and not pol) for t, pol in lits):
-          return True
-        if c.op == "cmp":
-          flip = {"<": ">=", ">=": "<", ">": "<=", "<=": ">", "==": "!=", "!=": "=="}.get(c.args[0])
-          if flip and any(t is T("cmp", flip, c.args[1], c.args[2]) and pol for t, pol in lits):
-            return True
-        return c.op == "or" and all(negated(x) for x in c.args)
+    # Decided by truth table over the atoms of the path conditions (comparisons are normalised so that `a != b` is the
+    # negation of `a == b`, `a >= b` of `a < b`): L = (niter == opt.iterations), D = the world's done flag (False: still
+    # solving), every other atom is an opaque convergence test c_i.
+    #   F(c, L) = some store `done := True` executes        R-GATE.8:  F(c, L=True) for every c
+    #   G(c)    = F(c, L=False)   (the converged condition)  R-GATE.9:  the ITERATIONS store executes  <=>  L and not G(c)
+    atoms: list = []
 
-      not_conv = conv is not None and bool(conv) and all(negated(c) for c in conv)
-      oko = oko and has_limit and not_conv and _done_gate(lc, a) is not None
-    res.ob(oko, f"{name}|iterations-bit", Finding("R-GATE.9", f"{name}|overflow|ITERATIONS-condition", "the ITERATIONS overflow bit is not set exactly under `not converged and solver_niter == opt.iterations` (and only for worlds still solving)", lc.fi.loc()), sample={"finaliser": name, "bit_condition": [show(t) + ("" if p else " (negated)") for a in wo for t, p in pc_literals(a.pc)][:4]})
+    def atom_of(t):
+      """(key, negated) of a comparison / load atom"""
+      neg = False
+      if isinstance(t, T) and t.op == "cmp":
+        op, a, b = t.args
+        base = {"!=": ("==", True), ">=": ("<", True), "<=": (">", True)}.get(op)
+        if base:
+          op, neg = base[0], True
+        t = T("cmp", op, a, b)
+      if t not in atoms:
+        atoms.append(t)
+      return t, neg
+
+    def ev(t, env):
+      if isinstance(t, T) and t.op == "lit":
+        v = ev(t.args[0], env)
+        return v if t.args[1] else (not v)
+      if isinstance(t, T) and t.op in ("all", "and"):
+        return all(ev(x, env) for x in t.args)
+      if isinstance(t, T) and t.op == "or":
+        return any(ev(x, env) for x in t.args)
+      if isinstance(t, T) and t.op == "not":
+        return not ev(t.args[0], env)
+      if isinstance(t, T) and t.op == "c":
+        return bool(t.args[0])
+      k, neg = atom_of(t)
+      return env[k] != neg
+
+    def collect(t):
+      if isinstance(t, T) and t.op in ("lit", "all", "and", "or", "not"):
+        for x in t.args:
+          if isinstance(x, T):
+            collect(x)
+      elif isinstance(t, T) and t.op != "c":
+        atom_of(t)
+
+    done_stores = [a for a in wd if isinstance(a.value, T) and a.value.op == "c" and a.value.args[0] is True]
+    for a in done_stores + list(wo):
+      for l in a.pc:
+        collect(l)
+    is_L = [t for t in atoms if limit_cmp(t)]
+    is_D = [t for t in atoms if t.op == "ld" and array_key(lc, t.args[0]) == DONE_KEY]
+    free = [t for t in atoms if t not in is_L and t not in is_D]
+    okd = bool(done_stores) and len(is_L) == 1 and len(free) <= 8
+    oko = bool(wo) and okd
+    if okd:
+      import itertools
+
+      for vals in itertools.product([False, True], repeat=len(free)):
+        env = dict(zip(free, vals))
+        for d in is_D:
+          env[d] = False
+        envL = dict(env)
+        envL[is_L[0]] = True
+        env0 = dict(env)
+        env0[is_L[0]] = False
+        F1 = any(all(ev(l, envL) for l in a.pc) for a in done_stores)
+        G = any(all(ev(l, env0) for l in a.pc) for a in done_stores)
+        if not F1:
+          okd = False
+        for L, e_ in ((True, envL), (False, env0)):
+          H = any(all(ev(l, e_) for l in a.pc) for a in wo)
+          if H != (L and not G):
+            oko = False
+      # only for worlds still solving
+      oko = oko and all(_done_gate(lc, a) is not None for a in wo)
+    res.ob(okd, f"{name}|done-at-limit", Finding("R-GATE.8", f"{name}|done|limit", "ctx.done is not set to True on every path where solver_niter == opt.iterations can hold (truth table over the path-condition atoms: with niter == iterations the store `done = True` must execute for every outcome of the convergence tests)", lc.fi.loc()))
+    res.ob(oko, f"{name}|iterations-bit", Finding("R-GATE.9", f"{name}|overflow|ITERATIONS-condition", "the ITERATIONS overflow bit is not set exactly under `not converged and solver_niter == opt.iterations` (and only for worlds still solving); converged = the condition under which done is set when the limit is not reached", lc.fi.loc()), sample={"finaliser": name, "atoms": [show(t)[:50] for t in atoms][:6]})
     shapes[name] = (okd, oko, len(wd), len(wo), len(inc))
   # no other kernel sets the ITERATIONS bit
   for lc0 in db.launch_ctxs():
